@@ -147,13 +147,20 @@ func classify(ct string, body []byte) (codec string, inner []byte) {
 }
 
 func execOpts(f []string) string {
-	if len(f) != 5 {
-		panic("opts line needs 5 fields")
+	if len(f) != 5 && len(f) != 6 {
+		panic("opts line needs 5 or 6 fields")
+	}
+	meth, bpath := "POST", "*"
+	if len(f) == 6 { // m=GET (bodiless binding) | m=GET* (binding with body)
+		meth, bpath = kv(f[5], "m"), ""
+		if strings.HasSuffix(meth, "*") {
+			meth, bpath = meth[:len(meth)-1], "*"
+		}
 	}
 	options := parseBridgeOptions(kv(f[1], "o"))
 	cts, accs := hexList(kv(f[2], "ct")), hexList(kv(f[3], "acc"))
 	scn := kv(f[4], "sc")
-	sc := &scenario{rpc: "u", inj: "none", n: 1, ra: "n", rb: "o", tmo: "-"}
+	sc := &scenario{rpc: "u", inj: "none", n: 1, ra: "n", rb: "o", tmo: "-", meth: meth, bpath: bpath}
 	wantCode := 0
 	switch {
 	case scn == "ok":
@@ -171,7 +178,7 @@ func execOpts(f []string) string {
 	router := &rootRouter{fakeRouter{sc: sc, rec: rec, conn: &fakeConn{sc: sc, rec: rec}}}
 	bridge := grpcbridge.NewWebBridge(router, options...)
 
-	req := httptest.NewRequest("POST", "/x", strings.NewReader(""))
+	req := httptest.NewRequest(meth, "/x", strings.NewReader(""))
 	for _, v := range cts {
 		req.Header.Add("Content-Type", v)
 	}
@@ -279,6 +286,20 @@ func genOpts(emit func(string), count func(string)) {
 			for _, acc := range optAccs {
 				for _, sc := range optScenarios {
 					line(o, ct, acc, sc)
+				}
+			}
+		}
+	}
+	// the HTTP method is not an input of the negotiation (seeded C10-m8): GET / HEAD / DELETE bound routes, bindings with
+	// and without a body, under JSON and non-JSON default marshalers
+	for _, o := range []string{"-", "D:t", "D:b", "M:jt", "M:jt,D:t", "M:tb,D:b", "M:t"} {
+		for _, meth := range []string{"GET", "GET*", "HEAD", "DELETE", "DELETE*", "PUT*"} {
+			for _, ct := range optCTs {
+				for _, acc := range optAccs {
+					for _, sc := range optScenarios {
+						emit(fmt.Sprintf("opts o=%s ct=%s acc=%s sc=%s m=%s", o, hexListOut(ct), hexListOut(acc), sc, meth))
+						count("opts.method")
+					}
 				}
 			}
 		}
